@@ -1,6 +1,7 @@
 mod alloc;
 mod checks_a;
 mod checks_b;
+mod checks_c05;
 mod checks_c06;
 mod checks_c11;
 mod checks_c14;
@@ -35,6 +36,7 @@ fn registry() -> Vec<Box<dyn Check>> {
     v.extend(checks_c20::checks());
     v.extend(checks_c14::checks());
     v.extend(checks_c11::checks());
+    v.extend(checks_c05::checks());
     v.extend(checks_c06::checks());
     v.extend(checks_prio2::checks());
     v.extend(checks_twin::checks());
